@@ -38,8 +38,10 @@ every read and at every write, as V8 does natively and for the lowered form alik
 key once, when the reference is evaluated; under that reading the lowered form would convert once more than the
 source); numbers are integers or NaN
 (fractions, infinities and -0 are not distinguished; arithmetic is a parameter of the world); no symbols are
-produced by literals (the world may produce them).  Tagged templates, `o?.[k]`, calls as chain links, compound
-assignments other than the four, destructuring targets are not in the fragment.
+produced by literals (the world may produce them).  Compound assignments other than the four and destructuring
+targets are not in the fragment.  Optional calls, method calls through chains, parenthesised chains, tagged
+templates, `delete` and `o?.[k]` are in the fragment since the work package taggedlower: `lowerC_good` and the
+theorems below cover them; the theorems named after them are in Props/C05Calls.lean.
 -/
 namespace EsbuildModel.Lower2
 
@@ -251,6 +253,616 @@ theorem sim_tcat (w : World) (P Sb : T) (fp fs : H → Res × H) (hP : Sim w P f
     | _ => split <;> simp_all
   | _ => simp
 
+-- ---------------------------------------------------------------- calls, tagged templates, delete
+
+/-- `Good` with an arbitrary source-side function instead of `evalC w e` -/
+def GoodF (w : World) (f : H → CRes × H) (acc : T) (pend : Option T) : Prop :=
+  match pend with
+  | none => ∀ s : TState, Rel (evalT w acc s) (f s.h) ∧ (f s.h).1 ≠ .short
+  | some t => ∀ s : TState,
+      (∀ x, (evalT w t s).1 = .err x → f s.h = (.err x, (evalT w t s).2.h)) ∧
+      (∀ v, (evalT w t s).1 = .val v → v.nullish = true → f s.h = (.short, (evalT w t s).2.h)) ∧
+      (∀ v, (evalT w t s).1 = .val v → v.nullish = false →
+        Rel (evalT w acc (evalT w t s).2) (f s.h) ∧ (f s.h).1 ≠ .short)
+
+theorem good_iff (w : World) (e : S) (acc : T) (pend : Option T) : Good w e acc pend ↔ GoodF w (evalC w e) acc pend := by
+  cases pend <;> exact Iff.rfl
+
+theorem goodF_congr (w : World) (f g : H → CRes × H) (acc : T) (pend : Option T) (h : ∀ x, f x = g x)
+    (hg : GoodF w g acc pend) : GoodF w f acc pend := by
+  have : f = g := funext h
+  rw [this]; exact hg
+
+/-- closing a pending test with an arbitrary value for "cut short" -/
+def finG (d : Val) (acc : T) : Option T → T
+  | none => acc
+  | some t => .ifEqNull t (.lit d) acc
+
+theorem fin_eq_finG (acc : T) (pend : Option T) : fin acc pend = finG .undef acc pend := by cases pend <;> rfl
+theorem finD_eq_finG (acc : T) (pend : Option T) : finD acc pend = finG (.bool true) acc pend := by cases pend <;> rfl
+
+/-- What a chain that has been lowered so far does when it is closed around ANY continuation `acc'`: either the
+pending test stops the evaluation (the source chain failed or was cut short there), or the continuation runs in a
+state `s0` in which `acc` evaluates to what the source chain evaluates to. -/
+theorem good_cont (w : World) (f : H → CRes × H) (acc : T) (pend : Option T) (hg : GoodF w f acc pend) (s : TState) :
+    (∃ s0, (∀ d acc', evalT w (finG d acc' pend) s = evalT w acc' s0) ∧ Rel (evalT w acc s0) (f s.h) ∧ (f s.h).1 ≠ .short) ∨
+    (∃ s0, s0.h = (f s.h).2 ∧
+      (((f s.h).1 = .short ∧ ∀ d acc', evalT w (finG d acc' pend) s = (.val d, s0)) ∨
+       (∃ x, (f s.h).1 = .err x ∧ ∀ d acc', evalT w (finG d acc' pend) s = (.err x, s0)))) := by
+  cases pend with
+  | none => exact Or.inl ⟨s, fun _ _ => rfl, (hg s).1, (hg s).2⟩
+  | some t =>
+    have hs := hg s
+    rcases ht : evalT w t s with ⟨r, s1⟩
+    rw [ht] at hs
+    cases r with
+    | err x =>
+      have := hs.1 x rfl
+      refine Or.inr ⟨s1, by rw [this], Or.inr ⟨x, by rw [this], fun d acc' => ?_⟩⟩
+      simp [finG, evalT, ht]
+    | val v =>
+      cases hv : v.nullish with
+      | true =>
+        have := hs.2.1 v rfl hv
+        refine Or.inr ⟨s1, by rw [this], Or.inl ⟨by rw [this], fun d acc' => ?_⟩⟩
+        simp [finG, evalT, ht, hv]
+      | false =>
+        have := hs.2.2 v rfl hv
+        refine Or.inl ⟨s1, fun d acc' => ?_, this.1, this.2⟩
+        simp [finG, evalT, ht, hv]
+
+/-- a chain closed around a continuation that first evaluates `acc` and then does `L` -/
+theorem sim_cont (w : World) (f : H → CRes × H) (acc : T) (pend : Option T) (hg : GoodF w f acc pend)
+    (d : Val) (acc' : T) (L : Val → TState → Res × TState) (l : Val → H → Res × H)
+    (hT : ∀ s, evalT w acc' s = bindR (evalT w acc s) L)
+    (hL : ∀ v s1, (L v s1).1 = (l v s1.h).1 ∧ (L v s1).2.h = (l v s1.h).2) :
+    Sim w (finG d acc' pend) (fun h => match f h with
+      | (.err x, h1) => (.err x, h1)
+      | (.short, h1) => (.val d, h1)
+      | (.val v, h1) => l v h1) := by
+  intro s
+  dsimp only
+  rcases good_cont w f acc pend hg s with ⟨s0, hgo, hrel, hns⟩ | ⟨s0, hh, hstop⟩
+  · rw [hgo d acc', hT]
+    rcases hf : f s.h with ⟨cr, h1⟩
+    rcases hto : evalT w acc s0 with ⟨r, s1⟩
+    rw [hf, hto] at hrel
+    rw [hf] at hns
+    obtain ⟨r1, r2⟩ := hrel
+    simp only at r1 r2 hns
+    cases cr with
+    | short => exact absurd rfl hns
+    | err x =>
+      simp only [CRes.top] at r1
+      subst r1
+      simp [r2]
+    | val v =>
+      simp only [CRes.top] at r1
+      subst r1
+      simp only [bindR_val]
+      rw [← r2]
+      exact hL v s1
+  · rcases hf : f s.h with ⟨cr, h1⟩
+    rw [hf] at hh hstop
+    simp only at hh hstop
+    rcases hstop with ⟨hsh, hev⟩ | ⟨x, hx, hev⟩
+    · subst hsh
+      rw [hev d acc']
+      exact ⟨rfl, hh⟩
+    · subst hx
+      rw [hev d acc']
+      exact ⟨rfl, hh⟩
+
+/-- one more OPTIONAL link on a chain: the chain so far is closed and captured, the captured value is tested,
+the link `mk` continues from the captured value -/
+theorem good_optLink (w : World) (o : S) (acc : T) (pend : Option T) (n : Nat) (mk : T → T)
+    (L : Val → TState → Res × TState) (l : Val → H → Res × H) (hg : Good w o acc pend)
+    (hT : ∀ base s, evalT w (mk base) s = bindR (evalT w base s) L)
+    (hL : ∀ v s1, (L v s1).1 = (l v s1.h).1 ∧ (L v s1).2.h = (l v s1.h).2) :
+    GoodF w (fun h => match evalC w o h with
+        | (.err x, h1) => (.err x, h1)
+        | (.short, h1) => (.short, h1)
+        | (.val v, h1) => if v.nullish then (.short, h1) else toCP (l v h1))
+      (mk (capture (fin acc pend) n).2.1) (some (capture (fin acc pend) n).1) := by
+  intro s
+  dsimp only
+  have hf := fin_ok w o acc pend hg s
+  obtain ⟨hc1, hc2, hc3⟩ := capture_spec w (fin acc pend) n s
+  simp only [evalS, topP_fst, topP_snd] at hf
+  obtain ⟨hf1, hf2⟩ := hf
+  rw [hf1] at hc1; rw [hf2] at hc2
+  rcases ho : evalC w o s.h with ⟨cr, h1⟩
+  rw [ho] at hc1 hc2 hf1
+  simp only at hc1 hc2 hf1
+  refine ⟨?_, ?_, ?_⟩
+  · intro x herr
+    rw [hc1] at herr
+    cases cr <;> simp only [CRes.top, reduceCtorEq, Res.err.injEq] at herr
+    subst herr
+    simp [hc2]
+  · intro v hv hn
+    rw [hc1] at hv
+    cases cr with
+    | err x => simp [CRes.top] at hv
+    | short => simp [hc2]
+    | val u =>
+      simp only [CRes.top, Res.val.injEq] at hv
+      subst hv
+      simp [hn, hc2]
+  · intro v hv hn
+    rw [hc1] at hv
+    have hread := hc3 v (by rw [hf1]; exact hv) _ ⟨fun _ _ _ => rfl, fun _ _ => rfl⟩
+    cases cr with
+    | err x => simp [CRes.top] at hv
+    | short =>
+      simp only [CRes.top, Res.val.injEq] at hv
+      subst hv
+      simp [Val.nullish] at hn
+    | val u =>
+      simp only [CRes.top, Res.val.injEq] at hv
+      subst hv
+      simp only [hT, hread, bindR_val, hn]
+      have hl := hL u (evalT w (capture (fin acc pend) n).1 s).2
+      rw [hc2] at hl
+      refine ⟨⟨?_, ?_⟩, toC_ne_short _⟩
+      · simpa using hl.1
+      · simpa using hl.2
+
+/-- one step of an argument list -/
+theorem sim_step (w : World) (A : T) (fa : H → Res × H) (hA : Sim w A fa) (s : TState) :
+    (∃ x s1, evalT w A s = (.err x, s1) ∧ fa s.h = (.err x, s1.h)) ∨
+    (∃ v s1, evalT w A s = (.val v, s1) ∧ fa s.h = (.val v, s1.h)) := by
+  obtain ⟨h1, h2⟩ := hA s
+  rcases hta : evalT w A s with ⟨r, s1⟩
+  rcases hfa : fa s.h with ⟨q, h'⟩
+  rw [hta, hfa] at h1 h2
+  simp only at h1 h2
+  subst h1; subst h2
+  cases r with
+  | err x => exact Or.inl ⟨x, s1, rfl, rfl⟩
+  | val v => exact Or.inr ⟨v, s1, rfl, rfl⟩
+
+theorem sim_args3 (w : World) (n : Nat) (A B C : T) (fa fb fc : H → Res × H)
+    (hA : Sim w A fa) (hB : Sim w B fb) (hC : Sim w C fc) (s : TState) :
+    (args3 n (evalT w A) (evalT w B) (evalT w C) s).1 = (args3 n fa fb fc s.h).1 ∧
+    (args3 n (evalT w A) (evalT w B) (evalT w C) s).2.h = (args3 n fa fb fc s.h).2 := by
+  cases n with
+  | zero => exact ⟨rfl, rfl⟩
+  | succ n =>
+    rcases sim_step w A fa hA s with ⟨x, s1, e1, e2⟩ | ⟨a, s1, e1, e2⟩
+    · simp [args3, e1, e2]
+    · cases n with
+      | zero => simp [args3, e1, e2]
+      | succ n =>
+        rcases sim_step w B fb hB s1 with ⟨x, s2, f1, f2⟩ | ⟨b, s2, f1, f2⟩
+        · simp [args3, e1, e2, f1, f2]
+        · cases n with
+          | zero => simp [args3, e1, e2, f1, f2]
+          | succ n =>
+            rcases sim_step w C fc hC s2 with ⟨x, s3, g1, g2⟩ | ⟨c, s3, g1, g2⟩
+            · simp [args3, e1, e2, f1, f2, g1, g2]
+            · simp [args3, e1, e2, f1, f2, g1, g2]
+
+/-- `_t || (_t = __template([…]))` is GetTemplateObject: the array created for the site the first time is the one
+passed every time -/
+theorem sim_tplExpr (w : World) (t : TplSite) : Sim w (tplExpr t) (getTpl t.site) := by
+  intro s
+  simp only [tplExpr, evalT, getTpl]
+  cases hc : s.h.tcell t.site with
+  | some g => simp [Val.truthy]
+  | none => simp [Val.truthy, liftH, mkTplObj, hc]
+
+theorem sim_targs (w : World) (tpl : Option TplSite) (n : Nat) (A B : T) (fa fb : H → Res × H)
+    (hA : Sim w A fa) (hB : Sim w B fb) (s : TState) :
+    (args3 (targs tpl n A B).1 (evalT w (targs tpl n A B).2.1) (evalT w (targs tpl n A B).2.2.1)
+        (evalT w (targs tpl n A B).2.2.2) s).1 = (argsS tpl n fa fb s.h).1 ∧
+    (args3 (targs tpl n A B).1 (evalT w (targs tpl n A B).2.1) (evalT w (targs tpl n A B).2.2.1)
+        (evalT w (targs tpl n A B).2.2.2) s).2.h = (argsS tpl n fa fb s.h).2 := by
+  cases tpl with
+  | none => exact sim_args3 w _ A B B fa fb fb hA hB hB s
+  | some t => exact sim_args3 w _ (tplExpr t) A B (getTpl t.site) fa fb (sim_tplExpr w t) hA hB s
+
+theorem sim_callWith (w : World) (fv tv : Val) (FA : TState → ARes × TState) (fa : H → ARes × H)
+    (hA : ∀ s, (FA s).1 = (fa s.h).1 ∧ (FA s).2.h = (fa s.h).2) (s : TState) :
+    (callWithT w fv tv FA s).1 = (callWith w fv tv fa s.h).1 ∧
+    (callWithT w fv tv FA s).2.h = (callWith w fv tv fa s.h).2 := by
+  obtain ⟨h1, h2⟩ := hA s
+  unfold callWithT callWith
+  rcases hF : FA s with ⟨r, s1⟩
+  rcases hf : fa s.h with ⟨q, h'⟩
+  rw [hF, hf] at h1 h2
+  simp only at h1 h2
+  subst h1; subst h2
+  cases r with
+  | err x => exact ⟨rfl, rfl⟩
+  | vals vs => exact ⟨rfl, rfl⟩
+
+/-- the emitted property read of a link, once the base is a value -/
+def linkGetT (w : World) (lk : Link) (K : T) (ov : Val) (s1 : TState) : Res × TState :=
+  match lk with
+  | .dot p => liftH (getProp w ov (pkey p)) s1
+  | .idx => bindR (evalT w K s1) fun kv s2 => liftH (getProp w ov kv) s2
+
+def linkDelT (w : World) (lk : Link) (K : T) (ov : Val) (s1 : TState) : Res × TState :=
+  match lk with
+  | .dot p => liftH (delProp w ov (pkey p)) s1
+  | .idx => bindR (evalT w K s1) fun kv s2 => liftH (delProp w ov kv) s2
+
+theorem evalT_linkT (w : World) (lk : Link) (B K : T) (s : TState) :
+    evalT w (linkT lk B K) s = bindR (evalT w B s) (linkGetT w lk K) := by cases lk <;> rfl
+
+theorem evalT_delT (w : World) (lk : Link) (B K : T) (s : TState) :
+    evalT w (delT lk B K) s = bindR (evalT w B s) (linkDelT w lk K) := by cases lk <;> rfl
+
+theorem evalT_callM (w : World) (lk : Link) (B K : T) (g : Nat × T × T × T) (s : TState) :
+    evalT w (callM lk B K g) s = bindR (evalT w B s) fun ov s1 => bindR (linkGetT w lk K ov s1) fun fv s2 =>
+      callWithT w fv ov (args3 g.1 (evalT w g.2.1) (evalT w g.2.2.1) (evalT w g.2.2.2)) s2 := by
+  cases lk with
+  | dot p => rfl
+  | idx =>
+    simp only [callM, evalT, linkGetT]
+    rcases evalT w B s with ⟨r, s1⟩
+    cases r with
+    | err x => rfl
+    | val ov =>
+      simp only [bindR_val]
+      rcases evalT w K s1 with ⟨r2, s2⟩
+      cases r2 <;> rfl
+
+theorem sim_linkGet (w : World) (lk : Link) (K : T) (fk : H → Res × H) (hK : Sim w K fk) (ov : Val) (s1 : TState) :
+    (linkGetT w lk K ov s1).1 = (linkGet w lk fk ov s1.h).1 ∧ (linkGetT w lk K ov s1).2.h = (linkGet w lk fk ov s1.h).2 := by
+  cases lk with
+  | dot p => exact ⟨rfl, rfl⟩
+  | idx => exact sim_bind _ _ _ _ (hK s1).1 (hK s1).2 (fun kv s2 => ⟨rfl, rfl⟩)
+
+theorem sim_linkDel (w : World) (lk : Link) (K : T) (fk : H → Res × H) (hK : Sim w K fk) (ov : Val) (s1 : TState) :
+    (linkDelT w lk K ov s1).1 = (linkDel w lk fk ov s1.h).1 ∧ (linkDelT w lk K ov s1).2.h = (linkDel w lk fk ov s1.h).2 := by
+  cases lk with
+  | dot p => exact ⟨rfl, rfl⟩
+  | idx => exact sim_bind _ _ _ _ (hK s1).1 (hK s1).2 (fun kv s2 => ⟨rfl, rfl⟩)
+
+/-- a method call through a link, source side -/
+def linkCall (w : World) (lk : Link) (fk : H → Res × H) (fargs : H → ARes × H) (ov : Val) (h1 : H) : Res × H :=
+  bindR (linkGet w lk fk ov h1) fun fv h2 => callWith w fv ov fargs h2
+
+theorem topP_evalC_eq (w : World) (e : S) : (fun h1 => topP (evalC w e h1)) = evalS w e := rfl
+
+theorem bindR_pure {σ : Type} (r : Res × σ) : bindR r (fun v s => (.val v, s)) = r := by
+  obtain ⟨a, s⟩ := r
+  cases a <;> rfl
+
+theorem linkGetT_tm (w : World) (lk : Link) (K : T) (ov : Val) (s1 : TState) (m : Nat) (hbK : bound K ≤ m) :
+    (linkGetT w lk K ov s1).2.tm m = s1.tm m := by
+  cases lk with
+  | dot p => rfl
+  | idx =>
+    simp only [linkGetT]
+    exact bindR_tm _ _ s1 m (evalT_tm w K s1 m hbK) (fun kv s2 h2 => by simpa using h2)
+
+/-- the emitted member expression `r` whose base has been stored for a later `.call(this, …)` behaves like the
+source member expression `mm`, and afterwards `thisT` reads the base object -/
+def MemOk (w : World) (m : Nat) (thisT : T) (r : Res × TState) (mm : MRes × H) : Prop :=
+  r.2.h = mm.2 ∧ (∀ x, mm.1 = .err x → r.1 = .err x) ∧ (mm.1 = .short → r.1 = .val .undef) ∧
+  (∀ fv ov, mm.1 = .val fv ov → r.1 = .val fv ∧
+    ∀ s2 : TState, (thisT = .tmp m → s2.tm m = r.2.tm m) → (∀ x, thisT = .id x → s2.h.env x = r.2.h.env x) →
+      evalT w thisT s2 = (.val ov, s2))
+
+theorem mem_tail (w : World) (lk : Link) (K : T) (fk : H → Res × H) (hK : Sim w K fk) (m : Nat) (hbK : bound K ≤ m)
+    (ov : Val) (s1 : TState) (thisT : T)
+    (hlater : ∀ s2 : TState, (thisT = .tmp m → s2.tm m = s1.tm m) → (∀ x, thisT = .id x → s2.h.env x = s1.h.env x) →
+      evalT w thisT s2 = (.val ov, s2))
+    (hid : ∀ x, thisT = .id x → Keeps w x ∧ ∀ h, (fk h).2.env x = h.env x)
+    (optLink : Bool) (hnn : (optLink && ov.nullish) = false) :
+    MemOk w m thisT (linkGetT w lk K ov s1) (memSem optLink (.val ov, s1.h) (linkGet w lk fk)) := by
+  obtain ⟨g1, g2⟩ := sim_linkGet w lk K fk hK ov s1
+  have htm := linkGetT_tm w lk K ov s1 m hbK
+  have henv : ∀ x, thisT = .id x → (linkGetT w lk K ov s1).2.h.env x = s1.h.env x := by
+    intro x hx
+    rw [g2]
+    exact linkGet_keeps (hid x hx).1 lk fk (hid x hx).2 ov s1.h
+  simp only [memSem, hnn, Bool.false_eq_true, ↓reduceIte]
+  rcases hr : linkGetT w lk K ov s1 with ⟨r, s2⟩
+  rcases hq : linkGet w lk fk ov s1.h with ⟨q, h2⟩
+  rw [hr] at g1 g2 htm henv
+  rw [hq] at g1 g2
+  simp only at g1 g2 htm henv
+  subst g1; subst g2
+  cases r with
+  | err x => exact ⟨rfl, fun y hy => (by cases hy; rfl), fun hc => (by cases hc), fun fv ov' hc => (by cases hc)⟩
+  | val fv =>
+    refine ⟨rfl, fun y hy => (by cases hy), fun hc => (by cases hc), fun fv' ov' hc => ?_⟩
+    cases hc
+    refine ⟨rfl, fun s3 h3 e3 => hlater s3 (fun ht => (h3 ht).trans htm) (fun x hx => (e3 x hx).trans (henv x hx))⟩
+
+theorem capture_id_later (full : T) (n x : Nat) (h : full = .id x) : (capture full n).2.1 = .id x := by
+  subst h; rfl
+
+theorem capture_later_id (full : T) (n x : Nat) (h : (capture full n).2.1 = .id x) : full = .id x := by
+  cases full <;> simp [capture] at h ⊢
+  exact h
+
+/-- either nothing was allocated, or the later uses are the new temporary -/
+theorem capture_alloc (full : T) (n : Nat) :
+    (capture full n).2.2 = n ∨ ((capture full n).2.2 = n + 1 ∧ (capture full n).2.1 = .tmp n) := by
+  cases full <;> simp [capture]
+
+theorem capture_later_tmp (full : T) (n j : Nat) (h : (capture full n).2.1 = .tmp j) :
+    j = n ∧ (capture full n).2.2 = n + 1 := by
+  cases full <;> simp [capture] at h ⊢ <;> omega
+
+theorem memStore_spec (w : World) (optLink : Bool) (lk : Link) (o : S) (oacc : T) (opend : Option T)
+    (hg : Good w o oacc opend) (K : T) (fk : H → Res × H) (hK : Sim w K fk) (m : Nat) (hbK : bound K ≤ m)
+    (hid : ∀ x, (memStore optLink lk oacc opend K m).2.2.1 = .id x → Keeps w x ∧ ∀ h, (fk h).2.env x = h.env x)
+    (s : TState) :
+    MemOk w m (memStore optLink lk oacc opend K m).2.2.1
+      (evalT w (fin (memStore optLink lk oacc opend K m).1 (memStore optLink lk oacc opend K m).2.1) s)
+      (memSem optLink (evalC w o s.h) (linkGet w lk fk)) := by
+  cases optLink with
+  | false =>
+    simp only [memStore] at hid ⊢
+    have cn := capture_next oacc m
+    rw [fin_eq_finG]
+    rcases good_cont w _ _ _ ((good_iff w o _ _).1 hg) s with ⟨s0, hgo, hrel, hns⟩ | ⟨s0, hh, hstop⟩
+    · rw [hgo, evalT_linkT]
+      obtain ⟨c1, c2, c3⟩ := capture_spec w oacc m s0
+      rcases ho : evalC w o s.h with ⟨cr, h1⟩
+      rw [ho] at hrel hns
+      obtain ⟨r1, r2⟩ := hrel
+      simp only at r1 r2 hns
+      rw [r1] at c1 c3
+      rw [r2] at c2
+      rcases hc : evalT w (capture oacc m).1 s0 with ⟨rc, s1⟩
+      rw [hc] at c1 c2 c3
+      simp only at c1 c2 c3
+      subst c1; subst c2
+      cases cr with
+      | short => exact absurd rfl hns
+      | err x =>
+        simp only [CRes.top, bindR_err, memSem]
+        exact ⟨rfl, fun y hy => (by cases hy; rfl), fun hc => (by cases hc), fun fv ov' hc => (by cases hc)⟩
+      | val ov =>
+        simp only [CRes.top, bindR_val]
+        refine mem_tail w lk K fk hK m hbK ov s1 _ (fun s2 h2 e2 => ?_) hid false rfl
+        refine c3 ov rfl s2 ⟨fun j hj1 hj2 => ?_, fun x hx => e2 x (capture_id_later oacc m x hx)⟩
+        rcases capture_alloc oacc m with ha | ⟨ha, hb⟩
+        · omega
+        · have : j = m := by omega
+          subst this
+          exact h2 hb
+    · rcases ho : evalC w o s.h with ⟨cr, h1⟩
+      rw [ho] at hh hstop
+      simp only at hh hstop
+      rcases hstop with ⟨hsh, hev⟩ | ⟨x, hx, hev⟩
+      · subst hsh
+        rw [hev]
+        exact ⟨hh, fun y hy => (by cases hy), fun _ => rfl, fun fv ov' hc => (by cases hc)⟩
+      · subst hx
+        rw [hev]
+        exact ⟨hh, fun y hy => (by cases hy; rfl), fun hc => (by cases hc), fun fv ov' hc => (by cases hc)⟩
+  | true =>
+    simp only [memStore] at hid ⊢
+    have cn := capture_next (fin oacc opend) m
+    have hf := fin_ok w o oacc opend hg s
+    obtain ⟨c1, c2, c3⟩ := capture_spec w (fin oacc opend) m s
+    simp only [evalS, topP_fst, topP_snd] at hf
+    obtain ⟨hf1, hf2⟩ := hf
+    rw [hf1] at c1 c3; rw [hf2] at c2
+    rcases ho : evalC w o s.h with ⟨cr, h1⟩
+    rw [ho] at c1 c2 c3
+    simp only at c1 c2 c3
+    rw [show ∀ (a t : T), fin a (some t) = .ifEqNull t (.lit .undef) a from fun _ _ => rfl]
+    simp only [evalT]
+    rcases hc : evalT w (capture (fin oacc opend) m).1 s with ⟨rc, s1⟩
+    rw [hc] at c1 c2 c3
+    simp only at c1 c2 c3
+    subst c1; subst c2
+    cases cr with
+    | err x =>
+      simp only [CRes.top, bindR_err, memSem]
+      exact ⟨rfl, fun y hy => (by cases hy; rfl), fun hc => (by cases hc), fun fv ov' hc => (by cases hc)⟩
+    | short =>
+      simp only [CRes.top, bindR_val, Val.nullish, ↓reduceIte, memSem]
+      exact ⟨rfl, fun y hy => (by cases hy), fun _ => rfl, fun fv ov' hc => (by cases hc)⟩
+    | val ov =>
+      simp only [CRes.top, bindR_val]
+      cases hn : ov.nullish with
+      | true =>
+        simp only [↓reduceIte, memSem, Bool.true_and, hn]
+        exact ⟨rfl, fun y hy => (by cases hy), fun _ => rfl, fun fv ov' hc => (by cases hc)⟩
+      | false =>
+        simp only [Bool.false_eq_true, ↓reduceIte]
+        have hlater : ∀ s2 : TState, ((capture (fin oacc opend) m).2.1 = .tmp m → s2.tm m = s1.tm m) →
+            (∀ x, (capture (fin oacc opend) m).2.1 = .id x → s2.h.env x = s1.h.env x) →
+            evalT w (capture (fin oacc opend) m).2.1 s2 = (.val ov, s2) := by
+          intro s2 h2 e2
+          refine c3 ov rfl s2 ⟨fun j hj1 hj2 => ?_, fun x hx => e2 x (capture_id_later _ m x hx)⟩
+          rcases capture_alloc (fin oacc opend) m with ha | ⟨ha, hb⟩
+          · omega
+          · have : j = m := by omega
+            subst this
+            exact h2 hb
+        rw [evalT_linkT, hlater s1 (fun _ => rfl) (fun _ _ => rfl)]
+        simp only [bindR_val]
+        exact mem_tail w lk K fk hK m hbK ov s1 _ hlater hid true (by simp [hn])
+
+theorem memStore_this_tmp (optLink : Bool) (lk : Link) (oacc : T) (opend : Option T) (K : T) (m j : Nat)
+    (h : (memStore optLink lk oacc opend K m).2.2.1 = .tmp j) :
+    j = m ∧ (memStore optLink lk oacc opend K m).2.2.2 = m + 1 := by
+  cases optLink <;> exact capture_later_tmp _ _ _ h
+
+theorem memStore_next (optLink : Bool) (lk : Link) (oacc : T) (opend : Option T) (K : T) (m : Nat) :
+    m ≤ (memStore optLink lk oacc opend K m).2.2.2 := by
+  cases optLink <;> exact (capture_next _ _).1
+
+/-- `o.p?.(…)`: `(_b = M) == null ? void 0 : _b.call(this, …)` where `M` is the member expression with its base
+stored -/
+theorem good_mcall_opt (w : World) (tpl : Option TplSite) (optLink : Bool) (lk : Link) (o k : S) (nn : Nat) (a b : S)
+    (oacc : T) (opend : Option T) (K : T) (g : Nat × T × T × T) (m : Nat)
+    (hg : Good w o oacc opend) (hK : Sim w K (evalS w k)) (hbK : bound K ≤ m)
+    (hargs : ∀ s, (args3 g.1 (evalT w g.2.1) (evalT w g.2.2.1) (evalT w g.2.2.2) s).1 =
+        (argsS tpl nn (evalS w a) (evalS w b) s.h).1 ∧
+      (args3 g.1 (evalT w g.2.1) (evalT w g.2.2.1) (evalT w g.2.2.2) s).2.h = (argsS tpl nn (evalS w a) (evalS w b) s.h).2)
+    (hid : ∀ x, (memStore optLink lk oacc opend K m).2.2.1 = .id x → Keeps w x ∧ ∀ h, (evalS w k h).2.env x = h.env x) :
+    Good w (.mcall .opt tpl optLink lk o k nn a b) (mcallLower .opt optLink lk oacc opend K g m).1
+      (mcallLower .opt optLink lk oacc opend K g m).2.1 := by
+  simp only [mcallLower]
+  intro s
+  have hm := memStore_spec w optLink lk o oacc opend hg K (evalS w k) hK m hbK hid s
+  have hthis := memStore_this_tmp optLink lk oacc opend K m
+  have hnext := memStore_next optLink lk oacc opend K m
+  generalize memStore optLink lk oacc opend K m = ms at hm hthis hnext ⊢
+  obtain ⟨c1, c2, c3⟩ := capture_spec w (fin ms.1 ms.2.1) ms.2.2.2 s
+  have ctm := capture_tm' w (fin ms.1 ms.2.1) ms.2.2.2 s
+  obtain ⟨m1, m2, m3, m4⟩ := hm
+  have hev : evalC w (.mcall .opt tpl optLink lk o k nn a b) s.h =
+      mcallSem w .opt (memSem optLink (evalC w o s.h) (linkGet w lk (evalS w k)))
+        (argsS tpl nn (evalS w a) (evalS w b)) := by
+    simp only [evalC, topP_evalC_eq]
+  rw [hev]
+  rcases hmm : memSem optLink (evalC w o s.h) (linkGet w lk (evalS w k)) with ⟨mr, h2⟩
+  rw [hmm] at m1 m2 m3 m4
+  simp only at m1 m2 m3 m4
+  refine ⟨?_, ?_, ?_⟩
+  · intro x herr
+    rw [c1] at herr
+    cases mr with
+    | err y => rw [m2 y rfl] at herr; cases herr; simp [mcallSem, c2, m1]
+    | short => rw [m3 rfl] at herr; cases herr
+    | val fv ov => rw [(m4 fv ov rfl).1] at herr; cases herr
+  · intro v hv hn
+    rw [c1] at hv
+    cases mr with
+    | err y => rw [m2 y rfl] at hv; cases hv
+    | short => simp [mcallSem, c2, m1]
+    | val fv ov =>
+      rw [(m4 fv ov rfl).1] at hv
+      cases hv
+      simp [mcallSem, hn, c2, m1]
+  · intro v hv hn
+    have hread := c3 v (by rw [← c1]; exact hv) _ ⟨fun _ _ _ => rfl, fun _ _ => rfl⟩
+    rw [c1] at hv
+    cases mr with
+    | err y => rw [m2 y rfl] at hv; cases hv
+    | short => rw [m3 rfl] at hv; cases hv; simp [Val.nullish] at hn
+    | val fv ov =>
+      obtain ⟨e1, e2⟩ := m4 fv ov rfl
+      rw [e1] at hv
+      cases hv
+      have hthisv := e2 (evalT w (capture (fin ms.1 ms.2.1) ms.2.2.2).1 s).2
+        (fun ht => ctm m (by have := hthis m ht; omega))
+        (fun x _ => by rw [c2])
+      have hcw := sim_callWith w v ov _ _ hargs (evalT w (capture (fin ms.1 ms.2.1) ms.2.2.2).1 s).2
+      rw [c2, m1] at hcw
+      simp only [evalT, hread, bindR_val, hn, hthisv, mcallSem, Bool.false_eq_true, ↓reduceIte]
+      refine ⟨⟨?_, ?_⟩, toC_ne_short _⟩
+      · simpa using hcw.1
+      · simpa using hcw.2
+
+/-- an expression whose evaluation cannot have an effect or fail -/
+def S.pure : S → Bool
+  | .id _ => true
+  | .lit _ => true
+  | .this => true
+  | .tstr _ => true
+  | _ => false
+
+/-- the callee of a parenthesised member call is never null / undefined (and the chain inside is never cut short) -/
+def NeverNullish (w : World) (optLink : Bool) (lk : Link) (o k : S) : Prop :=
+  ∀ h, match (memSem optLink (evalC w o h) (linkGet w lk (evalS w k))).1 with
+    | .short => False
+    | .val fv _ => fv.nullish = false
+    | .err _ => True
+
+theorem pure_eval (w : World) (a : S) (ha : a.pure = true) (h : H) : ∃ v, evalS w a h = (.val v, h) := by
+  cases a <;> simp [S.pure] at ha
+  · exact ⟨_, rfl⟩
+  · exact ⟨_, rfl⟩
+  · exact ⟨_, rfl⟩
+  · exact ⟨_, rfl⟩
+
+theorem args_pure (w : World) (n : Nat) (a b : S) (ha : a.pure = true) (hb : b.pure = true) (h : H) :
+    ∃ vs, argsS none n (evalS w a) (evalS w b) h = (.vals vs, h) := by
+  obtain ⟨va, ea⟩ := pure_eval w a ha h
+  obtain ⟨vb, eb⟩ := pure_eval w b hb h
+  simp only [argsS]
+  generalize min n 2 = k
+  match k with
+  | 0 => exact ⟨_, rfl⟩
+  | 1 => exact ⟨[va], by simp [args3, ea]⟩
+  | 2 => exact ⟨[va, vb], by simp [args3, ea, eb]⟩
+  | k + 3 => exact ⟨[va, vb, vb], by simp [args3, ea, eb]⟩
+
+theorem invoke_nullish (w : World) (fv tv : Val) (vs : List Val) (h : H) (hn : fv.nullish = true) :
+    invoke w fv tv vs h = (.err .typeError, h) := by
+  cases fv <;> simp [Val.nullish] at hn <;> rfl
+
+/-- `(o?.p)(…)` / `(o?.p)`…``: `M.call(this, …)` -/
+theorem good_mcall_paren (w : World) (tpl : Option TplSite) (optLink : Bool) (lk : Link) (o k : S) (nn : Nat) (a b : S)
+    (oacc : T) (opend : Option T) (K : T) (g : Nat × T × T × T) (m : Nat)
+    (hg : Good w o oacc opend) (hK : Sim w K (evalS w k)) (hbK : bound K ≤ m)
+    (hargs : ∀ s, (args3 g.1 (evalT w g.2.1) (evalT w g.2.2.1) (evalT w g.2.2.2) s).1 =
+        (argsS tpl nn (evalS w a) (evalS w b) s.h).1 ∧
+      (args3 g.1 (evalT w g.2.1) (evalT w g.2.2.1) (evalT w g.2.2.2) s).2.h = (argsS tpl nn (evalS w a) (evalS w b) s.h).2)
+    (hid : ∀ x, (memStore optLink lk oacc opend K m).2.2.1 = .id x → Keeps w x ∧ ∀ h, (evalS w k h).2.env x = h.env x)
+    (hparen : NeverNullish w optLink lk o k ∨ (tpl = none ∧ a.pure = true ∧ b.pure = true)) :
+    Good w (.mcall .paren tpl optLink lk o k nn a b) (mcallLower .paren optLink lk oacc opend K g m).1
+      (mcallLower .paren optLink lk oacc opend K g m).2.1 := by
+  simp only [mcallLower]
+  intro s
+  have hm := memStore_spec w optLink lk o oacc opend hg K (evalS w k) hK m hbK hid s
+  generalize memStore optLink lk oacc opend K m = ms at hm ⊢
+  obtain ⟨m1, m2, m3, m4⟩ := hm
+  have hev : evalC w (.mcall .paren tpl optLink lk o k nn a b) s.h =
+      mcallSem w .paren (memSem optLink (evalC w o s.h) (linkGet w lk (evalS w k)))
+        (argsS tpl nn (evalS w a) (evalS w b)) := by
+    simp only [evalC, topP_evalC_eq]
+  rw [hev]
+  have hnn := fun hh : NeverNullish w optLink lk o k => hh s.h
+  -- what both sides do when the callee is null / undefined and the arguments are pure
+  have hpure : tpl = none ∧ a.pure = true ∧ b.pure = true → ∀ fv tv h', fv.nullish = true →
+      callWith w fv tv (argsS tpl nn (evalS w a) (evalS w b)) h' = (.err .typeError, h') := by
+    intro ⟨ht, ha, hb⟩ fv tv h' hn
+    subst ht
+    obtain ⟨vs, hvs⟩ := args_pure w nn a b ha hb h'
+    simp [callWith, hvs, invoke_nullish w fv tv vs h' hn]
+  rcases hmm : memSem optLink (evalC w o s.h) (linkGet w lk (evalS w k)) with ⟨mr, h2⟩
+  rw [hmm] at m1 m2 m3 m4 hnn
+  simp only at m1 m2 m3 m4 hnn
+  simp only [evalT]
+  rcases hr : evalT w (fin ms.1 ms.2.1) s with ⟨r, s1⟩
+  rw [hr] at m1 m2 m3 m4
+  simp only at m1 m2 m3 m4
+  subst m1
+  cases mr with
+  | err y =>
+    rw [m2 y rfl]
+    simp [mcallSem, Rel, CRes.top]
+  | short =>
+    rw [m3 rfl]
+    rcases hparen with hh | hp
+    · exact absurd (hnn hh) (by simp)
+    · simp only [bindR_val, Val.nullish, ↓reduceIte, mcallSem, hpure hp .undef .undef s1.h rfl]
+      simp [Rel, toCP, Res.toC, CRes.top]
+  | val fv ov =>
+    obtain ⟨e1, e2⟩ := m4 fv ov rfl
+    rw [e1]
+    simp only [bindR_val, mcallSem]
+    cases hn : fv.nullish with
+    | true =>
+      rcases hparen with hh | hp
+      · have := hnn hh
+        simp only at this
+        rw [this] at hn
+        cases hn
+      · simp only [↓reduceIte, hpure hp fv ov s1.h hn]
+        simp [Rel, toCP, Res.toC, CRes.top]
+    | false =>
+      have hcw := sim_callWith w fv ov _ _ hargs s1
+      simp only [Bool.false_eq_true, ↓reduceIte, e2 s1 (fun _ => rfl) (fun _ _ => rfl), bindR_val]
+      refine ⟨⟨?_, ?_⟩, toC_ne_short _⟩
+      · simpa using hcw.1
+      · simpa using hcw.2
+
 /-- the identifier an expression is, parentheses ignored: that is what esbuild writes twice instead of capturing -/
 def S.asId : S → Option Nat
   | .id x => some x
@@ -273,6 +885,60 @@ theorem lowerE_id : ∀ (o : S) (n x : Nat), fin (lowerC o n).1 (lowerC o n).2.1
   | asgVar y op r _ => intro n x h; cases op <;> simp [lowerC, fin, opCallback, TT.read, TT.write] at h
   | asgDot o p op r _ _ => intro n x h; cases op <;> simp [lowerC, fin, opCallback, TT.read, TT.write] at h
   | asgIdx o k op r _ _ _ => intro n x h; cases op <;> simp [lowerC, fin, opCallback, TT.read, TT.write] at h
+  | this => intro n x h; simp [lowerC, fin] at h
+  | optIdx o k _ _ => intro n x h; simp [lowerC, fin] at h
+  | vcall opt tpl f nn a b _ _ _ =>
+    intro n x h
+    cases opt
+    · simp only [lowerC] at h; cases hp : (lowerC f n).2.1 <;> simp [hp, fin] at h
+    · simp [lowerC, fin] at h
+  | mcall mode tpl optLink lk o k nn a b _ _ _ _ =>
+    intro n x h
+    simp only [lowerC] at h
+    cases mode <;> cases optLink <;> cases lk <;> simp only [mcallLower, callM, memStore] at h
+    all_goals first
+      | (simp [fin] at h; done)
+      | (cases hp : (lowerC o n).2.1 <;> simp [hp, fin] at h)
+  | del optLink lk o k _ _ =>
+    intro n x h
+    cases optLink <;> cases lk <;> simp only [lowerC, delT] at h
+    all_goals first
+      | (simp [fin] at h; done)
+      | (cases hp : (lowerC o n).2.1 <;> simp [hp, fin, finD] at h)
+  | delVal a _ =>
+    intro n x h
+    simp only [lowerC] at h
+    cases hp : (lowerC a n).2.1 <;> simp [hp, fin, finD] at h
+
+/-- the same for the chain so far (before the pending test is closed) -/
+theorem lowerAcc_id (o : S) (n x : Nat) (h : (lowerC o n).1 = .id x) : o.asId = some x := by
+  cases o with
+  | id y => simpa [lowerC, S.asId] using h
+  | paren a => simp only [lowerC] at h; simpa [S.asId] using lowerE_id a n x h
+  | lit v => simp [lowerC] at h
+  | tstr s => simp [lowerC] at h
+  | call f a => simp [lowerC] at h
+  | dot o p => simp [lowerC] at h
+  | optDot o p => simp [lowerC] at h
+  | idx o k => simp [lowerC] at h
+  | nullish a b => simp [lowerC] at h
+  | tcat p s t => simp [lowerC] at h
+  | asgVar y op r => cases op <;> simp [lowerC, opCallback, TT.read, TT.write] at h
+  | asgDot o p op r => cases op <;> simp [lowerC, opCallback, TT.read, TT.write] at h
+  | asgIdx o k op r => cases op <;> simp [lowerC, opCallback, TT.read, TT.write] at h
+  | this => simp [lowerC] at h
+  | optIdx o k => simp [lowerC] at h
+  | vcall opt tpl f nn a b => cases opt <;> simp [lowerC] at h
+  | mcall mode tpl optLink lk o k nn a b =>
+    cases mode <;> cases optLink <;> cases lk <;> simp [lowerC, mcallLower, callM, memStore] at h
+  | del optLink lk o k =>
+    cases optLink <;> cases lk <;> simp only [lowerC, delT] at h
+    all_goals first
+      | (simp at h; done)
+      | (cases hp : (lowerC o n).2.1 <;> simp [hp, finD] at h)
+  | delVal a =>
+    simp only [lowerC] at h
+    cases hp : (lowerC a n).2.1 <;> simp [hp, finD] at h
 
 /-- The hypothesis under which the lowering of assignments is right.  esbuild writes an identifier that is the
 object (or the key) of an assignment target twice instead of capturing its value
@@ -297,6 +963,18 @@ def Safe (w : World) : S → Prop
   | .asgDot o _ _ r => Safe w o ∧ Safe w r ∧ (∀ x, o.asId = some x → Keeps w x)
   | .asgIdx o k _ r => Safe w o ∧ Safe w k ∧ Safe w r ∧
       (∀ x, o.asId = some x → Keeps w x ∧ k.assigns x = false) ∧ (∀ y, k.asId = some y → Keeps w y)
+  | .this => True
+  | .optIdx o k => Safe w o ∧ Safe w k
+  | .vcall _ _ f _ a b => Safe w f ∧ Safe w a ∧ Safe w b
+  /- `o.p?.(…)`, `(o?.p)(…)`, `(o?.p)`…``: an identifier base is written again as the `this` argument of `.call`,
+  after the key expression, the key's toString and the getter have run; and `(o?.p)(args)` becomes
+  `(o == null ? void 0 : o.p).call(o, args)`, which throws BEFORE the arguments are evaluated when the callee is
+  null / undefined (natively the arguments are evaluated first) -/
+  | .mcall mode tpl optLink lk o k _ a b => Safe w o ∧ Safe w k ∧ Safe w a ∧ Safe w b ∧
+      (mode ≠ .plain → ∀ x, o.asId = some x → Keeps w x ∧ k.assigns x = false) ∧
+      (mode = .paren → NeverNullish w optLink lk o k ∨ (tpl = none ∧ a.pure = true ∧ b.pure = true))
+  | .del _ _ o k => Safe w o ∧ Safe w k
+  | .delVal a => Safe w a
 
 theorem lowerC_good (w : World) : ∀ (e : S) (n : Nat), Safe w e → Good w e (lowerC e n).1 (lowerC e n).2.1 := by
   intro e
@@ -378,6 +1056,168 @@ theorem lowerC_good (w : World) : ∀ (e : S) (n : Nat), Safe w e → Good w e (
       cases hx with
       | inl hx => exact (hid x (lowerE_id o n x hx)).1
       | inr hx => exact hkid x (lowerE_id k _ x hx)
+  | this => intro n _ s; simp [lowerC, evalT, evalC, CRes.top, Rel]
+  | optIdx o k iho ihk =>
+    intro n hs
+    simp only [Safe] at hs
+    have hK := fin_ok w k _ _ (ihk (lowerC o n).2.2 hs.2)
+    rw [good_iff]
+    refine goodF_congr w _ _ _ _ (fun h => ?_) (good_optLink w o _ _ (lowerC k (lowerC o n).2.2).2.2
+      (fun base => .idx base (fin (lowerC k (lowerC o n).2.2).1 (lowerC k (lowerC o n).2.2).2.1))
+      (fun v s1 => bindR (evalT w (fin (lowerC k (lowerC o n).2.2).1 (lowerC k (lowerC o n).2.2).2.1) s1)
+        fun kv s2 => liftH (getProp w v kv) s2)
+      (fun v h1 => bindR (evalS w k h1) fun kv h2 => getProp w v kv h2)
+      (iho n hs.1) (fun base s => rfl)
+      (fun v s1 => sim_bind _ _ _ _ (hK s1).1 (hK s1).2 (fun kv s2 => ⟨rfl, rfl⟩)))
+    simp only [evalC]; rfl
+  | vcall opt tpl f nn a b ihf iha ihb =>
+    intro n hs
+    simp only [Safe] at hs
+    have hA := fin_ok w a _ _ (iha (lowerC f n).2.2 hs.2.1)
+    have hB := fin_ok w b _ _ (ihb (lowerC a (lowerC f n).2.2).2.2 hs.2.2)
+    have hargs := sim_targs w tpl nn _ _ _ _ hA hB
+    cases opt with
+    | false =>
+      exact good_link w f _ (lowerC f n).1 _ (lowerC f n).2.1 _
+        (fun fv h1 => callWith w fv .undef (argsS tpl nn (evalS w a) (evalS w b)) h1)
+        (ihf n hs.1) (fun s => rfl)
+        (fun h => by simp only [evalC, vcallSem, Bool.false_and, Bool.false_eq_true, ↓reduceIte]; rfl)
+        (fun fv s1 => sim_callWith w fv .undef _ _ hargs s1)
+    | true =>
+      rw [good_iff]
+      refine goodF_congr w _ _ _ _ (fun h => ?_) (good_optLink w f _ _ _
+        (fun base => .callV base _ _ _ _) _
+        (fun fv h1 => callWith w fv .undef (argsS tpl nn (evalS w a) (evalS w b)) h1)
+        (ihf n hs.1) (fun base s => rfl) (fun fv s1 => sim_callWith w fv .undef _ _ hargs s1))
+      simp only [evalC, vcallSem, Bool.true_and]; rfl
+  | mcall mode tpl optLink lk o k nn a b iho ihk iha ihb =>
+    intro n hs
+    simp only [Safe] at hs
+    obtain ⟨hso, hsk, hsa, hsb, hid, hparen⟩ := hs
+    have hK := fin_ok w k _ _ (ihk (lowerC o n).2.2 hsk)
+    have hA := fin_ok w a _ _ (iha (lowerC k (lowerC o n).2.2).2.2 hsa)
+    have hB := fin_ok w b _ _ (ihb (lowerC a (lowerC k (lowerC o n).2.2).2.2).2.2 hsb)
+    have hargs := sim_targs w tpl nn _ _ _ _ hA hB
+    cases mode with
+    | plain =>
+      have hL : ∀ ov s1,
+          (bindR (linkGetT w lk (fin (lowerC k (lowerC o n).2.2).1 (lowerC k (lowerC o n).2.2).2.1) ov s1) fun fv s2 =>
+            callWithT w fv ov (args3 _ (evalT w _) (evalT w _) (evalT w _)) s2).1 =
+          (linkCall w lk (evalS w k) (argsS tpl nn (evalS w a) (evalS w b)) ov s1.h).1 ∧
+          (bindR (linkGetT w lk (fin (lowerC k (lowerC o n).2.2).1 (lowerC k (lowerC o n).2.2).2.1) ov s1) fun fv s2 =>
+            callWithT w fv ov (args3 _ (evalT w _) (evalT w _) (evalT w _)) s2).2.h =
+          (linkCall w lk (evalS w k) (argsS tpl nn (evalS w a) (evalS w b)) ov s1.h).2 :=
+        fun ov s1 => sim_bind _ _ _ _ (sim_linkGet w lk _ _ hK ov s1).1 (sim_linkGet w lk _ _ hK ov s1).2
+          (fun fv s2 => sim_callWith w fv ov _ _ hargs s2)
+      cases optLink with
+      | false =>
+        refine good_link w o _ (lowerC o n).1 _ (lowerC o n).2.1 _
+          (linkCall w lk (evalS w k) (argsS tpl nn (evalS w a) (evalS w b)))
+          (iho n hso) (fun s => evalT_callM w lk _ _ _ s) (fun h => ?_) hL
+        simp only [evalC, topP_evalC_eq]
+        rcases evalC w o h with ⟨cr, h1⟩
+        cases cr with
+        | err x => rfl
+        | short => rfl
+        | val ov =>
+          simp only [memSem, Bool.false_and, Bool.false_eq_true, ↓reduceIte, linkCall]
+          rcases linkGet w lk (evalS w k) ov h1 with ⟨r, h2⟩
+          cases r <;> rfl
+      | true =>
+        rw [good_iff]
+        refine goodF_congr w _ _ _ _ (fun h => ?_) (good_optLink w o _ _ _
+          (fun base => callM lk base _ _) _
+          (linkCall w lk (evalS w k) (argsS tpl nn (evalS w a) (evalS w b)))
+          (iho n hso) (fun base s => evalT_callM w lk _ _ _ s) hL)
+        simp only [evalC, topP_evalC_eq]
+        rcases evalC w o h with ⟨cr, h1⟩
+        cases cr with
+        | err x => rfl
+        | short => rfl
+        | val ov =>
+          simp only [memSem, Bool.true_and]
+          split
+          · rfl
+          · simp only [linkCall]
+            rcases linkGet w lk (evalS w k) ov h1 with ⟨r, h2⟩
+            cases r <;> rfl
+    | opt =>
+      have bk := lowerC_bound k (lowerC o n).2.2
+      have ba := lowerC_bound a (lowerC k (lowerC o n).2.2).2.2
+      have bb := lowerC_bound b (lowerC a (lowerC k (lowerC o n).2.2).2.2).2.2
+      refine good_mcall_opt w tpl optLink lk o k nn a b _ _ _ _ _ (iho n hso) hK
+        (Nat.le_trans (bound_fin_le _ _ _ bk.2.1 bk.2.2) (Nat.le_trans ba.1 bb.1)) hargs (fun x hx => ?_)
+      have hx' : o.asId = some x := by
+        cases optLink with
+        | false => exact lowerAcc_id o n x (capture_later_id _ _ _ hx)
+        | true => exact lowerE_id o n x (capture_later_id _ _ _ hx)
+      have := hid (by simp) x hx'
+      exact ⟨this.1, fun h => evalC_keeps w x this.1 k this.2 h⟩
+    | paren =>
+      have bk := lowerC_bound k (lowerC o n).2.2
+      have ba := lowerC_bound a (lowerC k (lowerC o n).2.2).2.2
+      have bb := lowerC_bound b (lowerC a (lowerC k (lowerC o n).2.2).2.2).2.2
+      refine good_mcall_paren w tpl optLink lk o k nn a b _ _ _ _ _ (iho n hso) hK
+        (Nat.le_trans (bound_fin_le _ _ _ bk.2.1 bk.2.2) (Nat.le_trans ba.1 bb.1)) hargs (fun x hx => ?_) (hparen rfl)
+      have hx' : o.asId = some x := by
+        cases optLink with
+        | false => exact lowerAcc_id o n x (capture_later_id _ _ _ hx)
+        | true => exact lowerE_id o n x (capture_later_id _ _ _ hx)
+      have := hid (by simp) x hx'
+      exact ⟨this.1, fun h => evalC_keeps w x this.1 k this.2 h⟩
+  | del optLink lk o k iho ihk =>
+    intro n hs
+    simp only [Safe] at hs
+    have hK := fin_ok w k _ _ (ihk (lowerC o n).2.2 hs.2)
+    cases optLink with
+    | false =>
+      simp only [lowerC, finD_eq_finG]
+      rw [good_iff]
+      have := sim_cont w _ _ _ ((good_iff w o _ _).1 (iho n hs.1)) (.bool true)
+        (delT lk (lowerC o n).1 (fin (lowerC k (lowerC o n).2.2).1 (lowerC k (lowerC o n).2.2).2.1))
+        (linkDelT w lk _) (linkDel w lk (evalS w k)) (fun s => evalT_delT w lk _ _ s)
+        (fun ov s1 => sim_linkDel w lk _ _ hK ov s1)
+      refine (good_iff w _ _ none).1 (good_of_sim w _ _ _ (fun h => ?_) this)
+      simp only [evalC, delSem, topP_evalC_eq]
+      rcases evalC w o h with ⟨cr, h1⟩
+      cases cr with
+      | err x => rfl
+      | short => rfl
+      | val ov =>
+        simp only [Bool.false_and, Bool.false_eq_true, ↓reduceIte]
+    | true =>
+      simp only [lowerC]
+      rw [good_iff]
+      have hgo := good_optLink w o _ _ (lowerC k (lowerC o n).2.2).2.2
+        (fun base => delT lk base (fin (lowerC k (lowerC o n).2.2).1 (lowerC k (lowerC o n).2.2).2.1))
+        (linkDelT w lk _) (linkDel w lk (evalS w k)) (iho n hs.1) (fun base s => evalT_delT w lk _ _ s)
+        (fun ov s1 => sim_linkDel w lk _ _ hK ov s1)
+      have := sim_cont w _ _ _ hgo (.bool true) _ (fun v s => (.val v, s)) (fun v h => (.val v, h))
+        (fun s => (bindR_pure _).symm) (fun v s1 => ⟨rfl, rfl⟩)
+      refine (good_iff w _ _ none).1 (good_of_sim w _ _ _ (fun h => ?_) this)
+      simp only [evalC, delSem, topP_evalC_eq]
+      rcases evalC w o h with ⟨cr, h1⟩
+      cases cr with
+      | err x => rfl
+      | short => rfl
+      | val ov =>
+        simp only [Bool.true_and]
+        split
+        · rfl
+        · rcases linkDel w lk (evalS w k) ov h1 with ⟨r, h2⟩
+          cases r <;> rfl
+  | delVal a ih =>
+    intro n hs
+    simp only [Safe] at hs
+    simp only [lowerC, finD_eq_finG]
+    rw [good_iff]
+    have := sim_cont w _ _ _ ((good_iff w a _ _).1 (ih n hs)) (.bool true) (.delV (lowerC a n).1)
+      (fun _ s1 => (.val (.bool true), s1)) (fun _ h1 => (.val (.bool true), h1)) (fun s => rfl)
+      (fun v s1 => ⟨rfl, rfl⟩)
+    refine (good_iff w _ _ none).1 (good_of_sim w _ _ _ (fun h => ?_) this)
+    simp only [evalC, delValSem]
+    rcases evalC w a h with ⟨cr, h1⟩
+    cases cr <;> rfl
 
 /-- Everything at once.  For every expression of the fragment, every world and every initial state (trace,
 user variables, temporaries), under `Safe`: the lowered expression yields the same value or the same exception,
@@ -408,6 +1248,12 @@ def S.noAsg : S → Bool
   | .asgVar _ _ _ => false
   | .asgDot _ _ _ _ => false
   | .asgIdx _ _ _ _ => false
+  | .this => true
+  | .optIdx o k => o.noAsg && k.noAsg
+  | .vcall _ _ _ _ _ _ => false
+  | .mcall _ _ _ _ _ _ _ _ _ => false
+  | .del _ _ _ _ => false
+  | .delVal _ => false
 
 theorem safe_of_noAsg (w : World) : ∀ e : S, e.noAsg = true → Safe w e ∧ e.noPow = true := by
   intro e
@@ -437,6 +1283,16 @@ theorem safe_of_noAsg (w : World) : ∀ e : S, e.noAsg = true → Safe w e ∧ e
   | asgVar x op r _ => intro h; simp [S.noAsg] at h
   | asgDot o p op r _ _ => intro h; simp [S.noAsg] at h
   | asgIdx o k op r _ _ _ => intro h; simp [S.noAsg] at h
+  | this => intro _; simp [Safe, S.noPow]
+  | optIdx o k iho ihk =>
+    intro h
+    simp only [S.noAsg, Bool.and_eq_true] at h
+    simp only [Safe, S.noPow, Bool.and_eq_true]
+    exact ⟨⟨(iho h.1).1, (ihk h.2).1⟩, (iho h.1).2, (ihk h.2).2⟩
+  | vcall _ _ _ _ _ _ _ _ _ => intro h; simp [S.noAsg] at h
+  | mcall _ _ _ _ _ _ _ _ _ _ _ _ _ => intro h; simp [S.noAsg] at h
+  | del _ _ _ _ _ _ => intro h; simp [S.noAsg] at h
+  | delVal _ _ => intro h; simp [S.noAsg] at h
 
 theorem evalS_nm (w : World) (x : Exc) (hx : x.marker = true) (e : S) (hw : e.wf = true)
     (hp : x = .bigint → e.noPow = true) (h : H) : (evalS w e h).1 ≠ .err x := by
@@ -527,20 +1383,25 @@ def exW : World :=
   { host := fun ev tr env =>
       match ev with
       | .call f _ => (.ret (.obj (7 + f)), env)
-      | .get (.obj i) _ => (if i = 1 then .ret .undef else .ret (.num (Int.ofNat (i + tr.length))), env)
+      | .get (.obj i) k =>
+        (if k = pkey 7 then .ret (.fn i) else if k = pkey 6 then .ret (.obj (i + 10))
+         else if i = 1 then .ret .undef else .ret (.num (Int.ofNat (i + tr.length))), env)
       | .get _ _ => (.ret .undef, env)
       | .set _ _ _ => (.ret .undef, env)
       | .toPrimS _ => (.ret (.str "k"), env)
-      | .toPrimN _ => (.ret (.num 2), env),
+      | .toPrimN _ => (.ret (.num 2), env)
+      | .callf f _ args => (.ret (.num (Int.ofNat (100 + f + args.length))), env)
+      | .del _ _ => (.ret (.bool true), env),
     primNum := fun _ => some 0,
-    numPow := fun a b => match a, b with | some a, some b => some (a * b) | _, _ => none }
+    numPow := fun a b => match a, b with | some a, some b => some (a * b) | _, _ => none,
+    thisVal := .obj 5 }
 
 theorem exW_keeps (x : Nat) : Keeps exW x := by
   intro ev tr env
   cases ev <;> simp only [exW]
   · rename_i o k; cases o <;> rfl
 
-def exH : H := ⟨[], fun x => if x = 0 then .null else .obj x⟩
+def exH : H := { tr := [], env := fun x => if x = 0 then .null else .obj x }
 
 /-- `v1[v2] ??= f0(v3)`: object and key are identifiers (written twice by esbuild), the key is an object whose
 toString runs twice, the getter answers undefined, so f0 is called and the setter runs -/
